@@ -114,7 +114,9 @@ def _(c):
 
 def _enc_cases(tier):
     ns = [0, 1, 63, 64, 65, 128, 130] if tier == 'quick' else list(range(0, 70)) + [127, 128, 129, 191, 192, 193]
-    return [{'kind': k, 'n': n, 'dr': dr} for k in ('salsa', 'chacha') for n in ns for dr in ((4, 10) if tier == 'quick' else range(1, 11))]
+    # the round count only selects the (opaque) core: every count for the boundary lengths, three counts for the others
+    return [{'kind': k, 'n': n, 'dr': dr} for k in ('salsa', 'chacha') for n in ns
+            for dr in ((4, 10) if tier == 'quick' else range(1, 11) if n in (0, 1, 63, 64, 65, 128, 129, 192, 193) else (4, 6, 10))]
 @obligation(P, 'enc/bounded', cls='B', opaque=ST.NAMES, bound='message length <= 130 bytes quick (<= 193 thorough); contents, key and nonce symbolic', cases=_enc_cases,
             funcs=['crysp.salsa20.Salsa20.enc', 'crysp.salsa20.Salsa20.dec', 'crysp.salsa20.Salsa20.keystream', 'crysp.chacha.Chacha.keystream'])
 def _(c):
